@@ -27,9 +27,9 @@ m = {
     "setup_cmd": "./setup.sh",
     "hooks": {
         "guard": "verif",
-        "enable": "none needed: harnesses and the nd package are injected with go/packages overlays (engine) and go test -overlay (native replay); /repo carries no instrumentation",
+        "enable": "checks load and build /repo with -tags verif (go/packages BuildFlags and go test -tags verif); the only hook is parse.verifYield, an empty function without the tag, called once in collectSpecs; harnesses and the nd package are injected with overlays, never written into /repo",
         "baseline_off_cmd": "for m in $(cat /w/out/gomods.txt); do MF=$(cd /repo/$m && . /w/out/goenv.sh && gomodflag); (cd /repo/$m && go test $MF -json -vet=off -count=1 -timeout 25m ./...); done",
-        "source_commits": [],
+        "source_commits": ["810c0ad"],
         "add_only": True,
     },
     "engines": [{"name": "gosym", "path": "engine", "serves_properties": [c["property_id"] for c in out_checks],
